@@ -44,6 +44,30 @@ theorem RefQ.getLast_filter_range (p : Nat → Bool) (r : Nat) (hr : p r = true)
       simp only [List.filter_cons, hf, List.filter_nil, Bool.false_eq_true, if_false, List.append_nil]
       exact ih (by omega) (fun s h1 h2 => hs s h1 (by omega))
 
+theorem RefQ.le_foldl_max : ∀ (l : List Nat) (m : Nat), m ≤ l.foldl max m ∧ ∀ x ∈ l, x ≤ l.foldl max m := by
+  intro l
+  induction l with
+  | nil => intro m; exact ⟨Nat.le_refl _, fun x hx => by cases hx⟩
+  | cons y t ih =>
+    intro m
+    obtain ⟨h1, h2⟩ := ih (max m y)
+    refine ⟨Nat.le_trans (Nat.le_max_left m y) h1, fun x hx => ?_⟩
+    rcases List.mem_cons.mp hx with e | hx
+    · subst e; exact Nat.le_trans (Nat.le_max_right m x) h1
+    · exact h2 x hx
+
+/-- no node lies above `maxSlot` -/
+theorem RefQ.has_le_maxSlot (a : Abs) (ref : NodeRef) (h : a.has ref = true) : ref.slot ≤ a.maxSlot := by
+  unfold Abs.has Abs.find at h
+  cases hf : a.nodes.find? (fun n => n.ref = ref) with
+  | none => rw [hf] at h; cases h
+  | some n =>
+    have hm := List.mem_of_find?_eq_some hf
+    have he : n.ref = ref := by simpa using List.find?_some hf
+    unfold Abs.maxSlot
+    rw [← he]
+    exact (RefQ.le_foldl_max _ 0).2 _ (List.mem_map.mpr ⟨n, hm, rfl⟩)
+
 /-- **`ClosestToSlot` refines the specification's linear scan** (value or error). -/
 theorem closest_refines (fc : FC) (a : Abs) (I : FI fc) (r : Ref fc a) (root : Root) (slot : Nat) :
     a.closest root slot =
@@ -66,7 +90,10 @@ theorem closest_refines (fc : FC) (a : Abs) (I : FI fc) (r : Ref fc a) (root : R
         obtain ⟨b1, b2, b3, b4⟩ := scanDown_spec fc.pa root s0 h0 (slot - s0)
         have hp : (fun s => a.has ⟨s, root⟩) = hasRef fc.pa root := by
           funext s; rw [has_iff I.wf r]; rfl
-        rw [hp, RefQ.getLast_filter_range (hasRef fc.pa root) _ b3 slot (by omega)
+        have hmax : scanDown fc.pa root s0 (slot - s0) ≤ a.maxSlot := by
+          have hh : a.has ⟨scanDown fc.pa root s0 (slot - s0), root⟩ = true := by rw [has_iff I.wf r]; exact b3
+          exact RefQ.has_le_maxSlot a _ hh
+        rw [hp, RefQ.getLast_filter_range (hasRef fc.pa root) _ b3 (min slot a.maxSlot) (by omega)
           (fun s h1 h2 => b4 s h1 (by omega))]
 /-! ## 2. `CanonicalChain` -/
 
